@@ -31,6 +31,8 @@ pub struct Entry {
     pub feed: fn() -> (Vec<u8>, Vec<u8>),
     pub hash: fn() -> (u64, u64),
     pub layout: fn() -> String,
+    /// value term -> schema rows and bytes of `serialize_with_schema`, `debug`/`to_csv` outcomes
+    pub schema: fn(&Term) -> String,
     pub extra: ops::Extra,
 }
 
@@ -141,6 +143,24 @@ where
     out
 }
 
+pub fn schema_generic<T: Serialize>(v: &T) -> String {
+    let mut out: Vec<u8> = Vec::new();
+    match catch(|| v.serialize_with_schema(&mut out)) {
+        None => "panic".into(),
+        Some(Err(e)) => format!("err {:?}", e),
+        Some(Ok(schema)) => {
+            let mut s = format!("ok {} ", term::hex(&out));
+            for r in schema.0.iter() {
+                s.push_str(&format!("{},{},{},{},{};", r.field, r.offset, r.size, r.align, term::hex(r.ty.as_bytes())));
+            }
+            let csv = catch(|| schema.to_csv()).map(|c| c.lines().count());
+            let dbg = catch(|| schema.debug(&out)).map(|c| c.lines().count());
+            s.push_str(&format!(" csv={:?} debug={:?}", csv, dbg));
+            s
+        }
+    }
+}
+
 pub fn feed_generic<T: TypeHash + AlignHash>() -> (Vec<u8>, Vec<u8>) {
     let mut a = Rec::default();
     T::type_hash(&mut a);
@@ -182,6 +202,10 @@ where
         feed: feed_generic::<T>,
         hash: hash_generic::<T>,
         layout: || "deep".to_string(),
+        schema: |t| match catch(|| T::from_term(t)) {
+            Some(v) => schema_generic(&v),
+            None => "badterm".into(),
+        },
         extra: ops::Extra::new::<T>(),
     }
 }
